@@ -18,6 +18,7 @@ import (
 type c13 struct {
 	base
 	nBlocks, nPairs, nRand int
+	nAlias, aliasStep      int
 	alpha                  []string
 }
 
@@ -57,9 +58,24 @@ func (p *c13) Init(tier string, seed int64) {
 	}
 	p.nPairs = len(p.alpha)
 	p.nRand = p.pick(20000, 400000)
+	p.aliasStep = p.pick(3, 1)
+	p.nAlias = 0x10000 / c13Block
 }
 
-func (p *c13) N() int { return p.nBlocks + 1 + p.nPairs + p.nRand }
+func (p *c13) N() int { return p.nBlocks + 1 + p.nPairs + p.nAlias + p.nRand }
+
+// aliases returns code points that share low bits with c (what a table, cache or
+// narrowing conversion keyed on part of the code point would confuse with it).
+func aliases(c rune) []rune {
+	out := []rune{c + 0x10000, c + 0x100000, c & 0xFF, c >> 8, c ^ 0x80}
+	var ok []rune
+	for _, d := range out {
+		if d > 0 && d <= 0x10FFFF && !(d >= 0xD800 && d < 0xE000) && d != c {
+			ok = append(ok, d)
+		}
+	}
+	return ok
+}
 
 func (p *c13) Describe(i int) interface{} {
 	switch {
@@ -69,8 +85,11 @@ func (p *c13) Describe(i int) interface{} {
 		return map[string]interface{}{"kind": "invalid-bytes", "from": "0x80", "to": "0xFF"}
 	case i < p.nBlocks+1+p.nPairs:
 		return map[string]interface{}{"kind": "pairs", "first": fmt.Sprintf("%q", p.alpha[i-p.nBlocks-1]), "second": "every symbol of the boundary alphabet", "alphabet_size": len(p.alpha)}
+	case i < p.nBlocks+1+p.nPairs+p.nAlias:
+		b := (i - p.nBlocks - 1 - p.nPairs) * c13Block
+		return map[string]interface{}{"kind": "aliasing-pairs", "from": fmt.Sprintf("U+%04X", b), "to": fmt.Sprintf("U+%04X", b+c13Block-1), "partners": "c+0x10000, c+0x100000, c&0xFF, c>>8, c^0x80; both orders, adjacent and separated"}
 	default:
-		s := p.randString(i - p.nBlocks - 1 - p.nPairs)
+		s := p.randString(i - p.nBlocks - 1 - p.nPairs - p.nAlias)
 		return map[string]interface{}{"kind": "random", "string": fmt.Sprintf("%q", s)}
 	}
 }
@@ -228,8 +247,24 @@ func (p *c13) Run(i int) (res fw.Result) {
 			}
 		}
 		res.AddClass("pair-row")
+	case i < p.nBlocks+1+p.nPairs+p.nAlias:
+		b := rune((i - p.nBlocks - 1 - p.nPairs) * c13Block)
+		for c := b + rune(int(p.seed)%p.aliasStep); c < b+c13Block; c += rune(p.aliasStep) {
+			if c < 0x80 || (c >= 0xD800 && c < 0xE000) {
+				continue
+			}
+			for _, d := range aliases(c) {
+				for _, str := range []string{string(c) + string(d), string(d) + string(c), string(c) + " then " + string(d), string(d) + "z" + string(c)} {
+					for k := range escapers {
+						p.checkString(&res, &escapers[k], str, 0)
+						res.Evals++
+					}
+				}
+			}
+		}
+		res.AddClass("aliasing-block")
 	default:
-		s := p.randString(i - p.nBlocks - 1 - p.nPairs)
+		s := p.randString(i - p.nBlocks - 1 - p.nPairs - p.nAlias)
 		split := 0
 		if len(s) > 1 {
 			split = 1 + (i*7919)%(len(s)-1)
@@ -257,7 +292,7 @@ func (p *c13) Run(i int) (res fw.Result) {
 }
 
 func (p *c13) Rule() string {
-	return "exhaustive: every Unicode scalar value U+0000..U+10FFFF and every byte 0x80..0xFF as a one-character string, and every ordered pair over an 84-symbol boundary alphabet (20 multi-character tokens that look like escaper output: &amp; &lt; &#39; &#x27; \\u0041 \\x41 %41 ...; hex digits, non-hex letters, white space, backslash, & # ; % u x, quotes, NUL, DEL, C1 controls, plane boundaries, U+2028/9, invalid bytes), each through all 5 escapers; plus seeded random strings (length<=200) over that alphabet and random Unicode, a quarter of them also fed back in after escaping (5x5 escaper cross product). Oracles: output matches the escaper's inert grammar; the standard decoder of the target context (HTML5 character references, ECMAScript string escapes with surrogate pairing, CSS Syntax 3 escapes, RFC 3986 percent-decoding) gives the input back for valid UTF-8 (html_attr: control characters stand for their deliberate replacement); escape(a+b)=escape(a)+escape(b). Non-trivial = the escaper changed the input; enumerated cases are distinct by construction, random strings are deduplicated by content."
+	return "exhaustive: every Unicode scalar value U+0000..U+10FFFF and every byte 0x80..0xFF as a one-character string, and every ordered pair over an 84-symbol boundary alphabet (20 multi-character tokens that look like escaper output: &amp; &lt; &#39; &#x27; \\u0041 \\x41 %41 ...; hex digits, non-hex letters, white space, backslash, & # ; % u x, quotes, NUL, DEL, C1 controls, plane boundaries, U+2028/9, invalid bytes), each through all 5 escapers; for every BMP code point >= U+0080 (quick: every third) the strings pairing it, in both orders, adjacent and separated, with the code points that share its low bits (c+0x10000, c+0x100000, c&0xFF, c>>8, c^0x80); plus seeded random strings (length<=200) over that alphabet and random Unicode, a quarter of them also fed back in after escaping (5x5 escaper cross product). Oracles: output matches the escaper's inert grammar; the standard decoder of the target context (HTML5 character references, ECMAScript string escapes with surrogate pairing, CSS Syntax 3 escapes, RFC 3986 percent-decoding) gives the input back for valid UTF-8 (html_attr: control characters stand for their deliberate replacement); escape(a+b)=escape(a)+escape(b). Non-trivial = the escaper changed the input; enumerated cases are distinct by construction, random strings are deduplicated by content."
 }
 
 func (p *c13) Assumptions() []string {
